@@ -19,6 +19,7 @@ def correspondence(ctx):
               "code": symobj_replay(q, b)} for q, a, b in bad[:3]]
     total = len(reqs)
     classes = {}
+    known_hits = []
     for registered in (False, True):
         n, tb = backends.type_lattice_classified(ctx, registered)
         total += n
@@ -29,10 +30,10 @@ def correspondence(ctx):
                 fails.append({"key": "types:" + " ".join(q.split()[:2]) + (":registered" if registered else ""),
                               "what": f"`{q}` (awkward behaviors registered: {registered}) returns {a}; the documented rule gives {b}",
                               "code": type_replay(q, b, registered, ctx.seed, ctx.tier)})
-            else:
-                fails.append({"key": cls, "what": cls, "code": None})
+            elif not any(f["key"] == cls for f in known_hits):
+                known_hits.append({"key": cls, "what": cls, "code": None})
     st.update({"traces_validated_against_impl": total, "type_lattice_disagreement_classes": classes})
-    return {"ok": not dis, "disagreements": dis[:20], "failing_inputs": [f for f in fails if f["code"] or True][:40], "stats": st,
+    return {"ok": not dis, "disagreements": dis[:20], "failing_inputs": fails[:10] + known_hits, "stats": st,
             "samples": [{"request": reqs[i], "answer": symobj.real_answer(reqs[i])[:160]} for i in (0, len(reqs) // 2, len(reqs) - 1)]}
 
 
